@@ -49,7 +49,12 @@ def same_instant(rng, d):
     return naive
 
 
+TINY = [False]      # small value domain: many equal values (unique-index conflicts)
+
+
 def scalar(rng, bools=True, oids=True, dates=True):
+    if TINY[0]:
+        return rng.choice([1, 2, 1, 2, None, 'a', BASE_DATE, make_oid(1), 1.0])
     k = rng.random()
     if k < 0.12:
         return None
